@@ -33,6 +33,10 @@ def bopOfJson (j : Json) : Option BOp := do
   let k ← (jField? j "k").bind jStr?
   if k == "cmds" then do let cs ← (jField? j "cs").bind pcmdsOfJson; pure (.cmds cs)
   else if k == "array" then do let l ← (jField? j "len").bind jNat?; pure (.newArray l)
+  else if k == "newreg" then do
+    let i ← (jField? j "idx").bind jNat?
+    let cs ← (jField? j "cs").bind pcmdsOfJson
+    pure (.newReg i cs)
   else if k == "meas" then do
     let m ← (jField? j "m").bind jStr?
     let cs ← (jField? j "cs").bind pcmdsOfJson
